@@ -40,6 +40,11 @@ var c07Kinds = []c07Kind{
 	{name: "filter-own-error-in-tag", src: "{% assign q = 1 | failing %}", wraps: "sentinel"},
 	{name: "filter-own-error-in-if", src: "{% if 1 | failing %}", tail: "{% endif %}", wraps: "sentinel"},
 	{name: "division-by-zero", src: "{{ 1 | divided_by: 0 }}", wraps: "cause"},
+	// a filter whose own error IS a SourceError - of another template it rendered or parsed itself, with another
+	// path and line: the outer error still locates the outer object
+	{name: "filter-returns-render-source-error", src: "{{ 1 | nested_render_error }}", wraps: "cause"},
+	{name: "filter-returns-parse-source-error", src: "{{ 1 | nested_parse_error }}", wraps: "cause"},
+	{name: "filter-returns-source-error-in-tag", src: "{% assign q = 1 | nested_render_error %}", wraps: "cause"},
 	{name: "type-error", src: `{{ 1 | plus: "a" }}`, wraps: "cause"},
 	{name: "strict-undefined", src: "{{ no_such_variable }}", strict: true},
 	{name: "unterminated-block", src: "{% if true %}", parseTime: true, unclosed: true},
@@ -339,7 +344,7 @@ func init() {
 	explore.Register(&explore.Prop{
 		ID:    "C07",
 		Level: "exploration",
-		Rule: "24 kinds of failing construct (syntax error in object / tag arguments, unknown tag, unknown filter, filter's own error in object/assign/if, division by zero, type error, strict undefined variable, unterminated blocks, stray end/clause tags, include of a missing file / non-string, bad cycle) placed in the taken body of every nesting path of depth 0..2 (quick) / 0..3 (thorough) over 7 enclosing forms, " +
+		Rule: "27 kinds of failing construct (syntax error in object / tag arguments, unknown tag, unknown filter, filter's own error in object/assign/if, division by zero, type error, strict undefined variable, unterminated blocks, stray end/clause tags, include of a missing file / non-string, bad cycle) placed in the taken body of every nesting path of depth 0..2 (quick) / 0..3 (thorough) over 7 enclosing forms, " +
 			"with 0/1/2 newlines + filler independently before every opener and before the construct, with and without a newline inside every opener tag, parsed with path in {none, dir/t.html} x start line in {0,1,7}, through ParseTemplateLocation+Render and ParseAndRender; scaled: 9 kinds after 9..5000 newlines (in text, inside tags, between openers) and inside 0..40 nested blocks; " +
 			"class = (kind, fails at parse time); distinct_nontrivial counts distinct classes",
 		Assumptions: []string{
@@ -351,6 +356,22 @@ func init() {
 			mk := func() *liquid.Engine {
 				e := liquid.NewEngine()
 				e.RegisterFilter("failing", func(v any) (any, error) { return nil, errC07Sentinel })
+				inner := liquid.NewEngine()
+				nested := func(src string) func(v any) (any, error) {
+					return func(v any) (any, error) {
+						tpl, err := inner.ParseTemplateLocation([]byte(src), "c07_inner/other.html", 40)
+						if err != nil {
+							return nil, err
+						}
+						out, err := tpl.Render(map[string]any{})
+						if err != nil {
+							return nil, err
+						}
+						return string(out), nil
+					}
+				}
+				e.RegisterFilter("nested_render_error", nested("x\ny\n{{ 1 | nosuchfilter }}"))
+				e.RegisterFilter("nested_parse_error", nested("\n{{ 1 | }}"))
 				return e
 			}
 			c07.eng, c07.strict = mk(), mk()
